@@ -54,13 +54,40 @@ def seed_of(seed):
 
 # ---------------------------------------------------------------------------------------------
 # parallel map over shards (fork; results must be picklable)
+class ShardError(Exception):
+    pass
+
+
+class _Guard:
+    """A worker that dies from a BaseException (an alarm exception, SystemExit) makes Pool.map wait forever:
+    catch everything in the worker and hand the failure to the parent as data."""
+
+    def __init__(self, fn):
+        self.fn = fn
+
+    def __call__(self, shard):
+        try:
+            return ('ok', self.fn(shard))
+        except KeyboardInterrupt:
+            raise
+        except BaseException:      # noqa
+            import traceback
+            return ('error', traceback.format_exc()[-3000:])
+
+
 def pmap(fn, shards, jobs=16):
     shards = list(shards)
+    g = _Guard(fn)
     if jobs <= 1 or len(shards) <= 1:
-        return [fn(s) for s in shards]
-    ctx = multiprocessing.get_context('fork')
-    with ctx.Pool(min(jobs, len(shards))) as pool:
-        return pool.map(fn, shards, chunksize=1)
+        res = [g(s) for s in shards]
+    else:
+        ctx = multiprocessing.get_context('fork')
+        with ctx.Pool(min(jobs, len(shards))) as pool:
+            res = pool.map(g, shards, chunksize=1)
+    errs = [r[1] for r in res if r[0] == 'error']
+    if errs:
+        raise ShardError('%d shard(s) failed; first:\n%s' % (len(errs), errs[0]))
+    return [r[1] for r in res]
 
 
 def merge(results):
